@@ -261,6 +261,75 @@ def long_headers():
     return w.scenario("directed-long-headers", {"thr": 3, "seed": 24, "gate": True}, cmds)
 
 
+def remined_chains(seed, directed=False):
+    """Chains of transactions inside one block (an output created and spent in the same block, several links
+    deep) mined again, wholly or as a dependency-closed prefix, in a competing block on another fork; the forks
+    are then discarded / stabilised in turn (C20 reference counts of outputs referenced several times by one
+    block and by several blocks; C01 / C05 answers; C15 fee rates of re-mined transactions)."""
+    rng = random.Random(seed)
+    w = _w(seed, naddr=3)
+    thr = 2 if directed else rng.choice([1, 2, 2, 3])
+    base = [1]
+    for _ in range(2 if directed else rng.randint(2, 3)):
+        base.append(w.mine(base[-1], ntx=0, coinbase_out=cb(rng.randint(1, 3), 1000)))
+    funding = [(w.blocks[b]["txs"][0], 1) for b in base[1:]]
+    # chains: t1 spends a funding output, t2 spends t1's output, ...
+    chains = []
+    for f in funding[: (1 if directed else rng.randint(1, len(funding)))]:
+        depth = 2 if directed else rng.randint(2, 4)
+        prev, val, ch = f, 1000, []
+        for _k in range(depth):
+            fee = 0 if directed else rng.choice([0, 1, 5, 20])
+            val -= fee
+            keep = 0 if directed else rng.choice([0, 0, 100])
+            outs = [cb(rng.randint(1, 3), val - keep)] + ([cb(rng.randint(1, 3), keep)] if keep else [])
+            val -= keep
+            t = w.new_tx([prev], outs, w=(not directed and rng.random() < 0.4))
+            ch.append(t)
+            prev = (t, 1)
+        chains.append(ch)
+    tip = base[-1]
+    nforks = 2 if directed else rng.choice([2, 2, 3])
+    forks = []
+    for i in range(nforks):
+        b = w.mine(tip, ntx=0, coinbase_out=cb(3, 5 + i))
+        for ch in chains:
+            k = len(ch) if (directed or i == 0) else rng.randint(0, len(ch))      # dependency-closed prefix
+            w.blocks[b]["txs"] += ch[:k]
+        forks.append([b])
+    # spend the end of a chain below the first fork (reference from a third block)
+    if not directed and rng.random() < 0.6:
+        last = chains[0][-1]
+        t = w.new_tx([(last, 1)], [cb(1, w.txs[last]["outs"][0]["v"])])
+        b = w.mine(forks[0][-1], ntx=0, coinbase_out=cb(2, 3))
+        w.blocks[b]["txs"].append(t)
+        forks[0].append(b)
+    win = 0 if directed else rng.randrange(nforks)
+    for _ in range(thr + 3):
+        forks[win].append(w.mine(forks[win][-1], ntx=0, coinbase_out=cb(3, 5)))
+    # fix the bookkeeping of the generator's own block list (transactions were appended after mining)
+    byid = {b["id"]: b for b in w.block_list}
+    for bid, blk in w.blocks.items():
+        if bid in byid:
+            byid[bid]["txs"] = list(blk["txs"])
+    order = base[1:] + [f[0] for f in forks]
+    rest = [f[1:] for f in forks]
+    while any(rest):
+        for r_ in rest:
+            if r_:
+                order.append(r_.pop(0))
+    cmds = [{"c": "tick", "dt": 100000}]
+    probe = [q("info"), q("fees")] + [x for a in (1, 2, 3) for x in (q("utxos", addr=a, mc=-1), q("balance", addr=a, mc=0),
+                                                                    q("utxos", addr=a, mc=2, limit=1))]
+    for i, b in enumerate(order):
+        cmds += [{"c": "offer", "initial": complete([b])}, {"c": "hb"}, {"c": "hb"}]
+        if not directed and rng.random() < 0.15:
+            cmds.append({"c": "upgrade", "d": {}})
+        cmds += probe if (directed or rng.random() < 0.5) else [q("info")]
+    cmds += [{"c": "hb"}, {"c": "hb"}] + probe
+    return w.scenario(f"remined-chains-{'directed' if directed else seed}", {"thr": thr, "seed": seed}, cmds)
+
+
 def directed(pid, tier="quick"):
     S = []
     if pid in ("C01", "C05", "C06"):
@@ -283,6 +352,8 @@ def directed(pid, tier="quick"):
         S += [threshold_raise_while_paused()]
     if pid in ("C20", "C05", "C01"):
         S += [shared_spend_discard(0), shared_spend_discard(1)]
+    if pid in ("C20", "C05", "C01", "C15"):
+        S += [remined_chains(7, directed=True)] + [remined_chains(100 + i) for i in range(12 if tier == "quick" else 300)]
     if pid in ("C20", "C03"):
         S += [multi_fork_discard()]
     if pid in ("C03", "C07"):
